@@ -31,9 +31,9 @@ TEMPLATES = [
     ("axpy_lit", "o(i) = a(i) + 1", True),
     ("lit_mul_contract", "o() = 2 * a(k) + b(k)", False),
     ("scalar_plus_contract", "o() = s() + a(k) + b(k)", True),
-    ("spmm", "o(i,k) = a(i,j) * b(j,k)", False),
+    ("spmm", "o(i,k) = a(i,j) * b(j,k)", True),
     ("sddmm", "o(i,j) = s(i,j) * a(i,k) * b(k,j)", False),
-    ("ttv", "o(i,j) = a(i,j,k) * x(k)", False),
+    ("ttv", "o(i,j) = a(i,j,k) * x(k)", True),
     ("mttkrp", "o(i,j) = a(i,k,l) * c(k,j) * d(l,j)", False),
     ("outer", "o(i,j) = a(i) * b(j)", True),
     ("bcast_add", "o(i,j) = a(i,j) + b(j)", False),
@@ -41,7 +41,7 @@ TEMPLATES = [
     ("quad_form", "o() = x(i) * v(i,j) * x(j)", True),
     ("reuse_sq", "o(i,j) = a(i,j) * a(i,j)", False),
     ("reuse_t", "o(i,j) = a(i,j) + a(j,i)", False),
-    ("sum_of_products", "o(i) = a(i,j) * x(j) + b(i,j) * y(j)", False),
+    ("sum_of_products", "o(i) = a(i,j) * x(j) + b(i,j) * y(j)", True),
     ("prod_of_sums", "o(i) = (a(i) + b(i)) * (c(i) + 1)", False),
     ("sub_nested", "o(i) = a(i) - (b(i) - c(i))", False),
     ("float_lits", "o(i) = 0.5 * a(i) + 1.5", False),
